@@ -899,6 +899,10 @@ impl<'cmd> Parser<'cmd> {
     ) -> ClapResult<ParseResult> {
         debug!("Parser::parse_short_arg: short_arg={short_arg:?}");
 
+        // Only the group of short flags that named the flag subcommand is revisited
+        let skip = self.flag_subcmd_skip;
+        self.flag_subcmd_skip = 0;
+
         #[allow(clippy::blocks_in_conditions)]
         if matches!(parse_state, ParseState::Opt(opt) | ParseState::Pos(opt)
                 if self.cmd[opt].is_allow_hyphen_values_set() || (self.cmd[opt].is_allow_negative_numbers_set() && short_arg.is_negative_number()))
@@ -931,8 +935,6 @@ impl<'cmd> Parser<'cmd> {
 
         let mut ret = ParseResult::NoArg;
 
-        let skip = self.flag_subcmd_skip;
-        self.flag_subcmd_skip = 0;
         let res = short_arg.advance_by(skip);
         debug_assert_eq!(
             res,
